@@ -2,7 +2,10 @@ module verifharness
 
 go 1.25.0
 
-require github.com/hashicorp/serf v0.0.0
+require (
+	github.com/hashicorp/go-msgpack/v2 v2.1.5
+	github.com/hashicorp/serf v0.0.0
+)
 
 require (
 	github.com/Masterminds/goutils v1.1.1 // indirect
@@ -20,7 +23,6 @@ require (
 	github.com/hashicorp/errwrap v1.1.0 // indirect
 	github.com/hashicorp/go-immutable-radix v1.3.1 // indirect
 	github.com/hashicorp/go-metrics v0.6.0 // indirect
-	github.com/hashicorp/go-msgpack/v2 v2.1.5 // indirect
 	github.com/hashicorp/go-multierror v1.1.1 // indirect
 	github.com/hashicorp/go-sockaddr v1.0.7 // indirect
 	github.com/hashicorp/go-syslog v1.0.0 // indirect
